@@ -14,6 +14,12 @@
 // Every command answers `res <cmd> ok|exn <class>` first.
 #define VH_PRIVATE_ACCESS
 #include "vh_common.hh"
+#include "BD_Shape_defs.hh"
+#include "Octagonal_Shape_defs.hh"
+#include "Rational_Box.hh"
+#include "C_Polyhedron_defs.hh"
+#include "NNC_Polyhedron_defs.hh"
+#include "Pointset_Powerset_defs.hh"
 #include <algorithm>
 using namespace Parma_Polyhedra_Library;
 using namespace vh;
@@ -189,6 +195,123 @@ static Polyhedron* do_route(const std::string& route, const Polyhedron& src, uns
   return p;
 }
 
+
+// ---------------------------------------------------------------------------------------------------------------
+// weakly relational shapes and boxes (topology field BDS | OCT | BOX): same commands, same answers (no generators,
+// no certificates)
+struct Shape {
+  virtual ~Shape() {}
+  virtual Shape* clone() const = 0;
+  virtual const char* kind() const = 0;
+  virtual unsigned dim() const = 0;
+  virtual Constraint_System cons() const = 0;          // read from a copy
+  virtual bool ok() const = 0;
+  virtual std::string flags() const = 0;
+  virtual void join(const Shape& y) = 0;
+  virtual void widen(const std::string& W, const Shape& y, unsigned* tp) = 0;
+  virtual void lim(const std::string& W, const Shape& y, const Constraint_System& cs, unsigned* tp) = 0;
+  virtual Shape* route(const std::string& r, unsigned long seed) const = 0;
+};
+typedef BD_Shape<mpq_class> BDS;
+typedef Octagonal_Shape<mpq_class> OCT;
+
+template <typename T> struct Ops;
+template <> struct Ops<BDS> {
+  static const char* kind() { return "BDS"; }
+  static std::string flags(const BDS& x) { std::ostringstream os; x.status.ascii_dump(os); return os.str(); }
+  static void widen(BDS& x, const std::string& W, const BDS& y, unsigned* tp) {
+    if (W == "BHMZ05") x.BHMZ05_widening_assign(y, tp); else if (W == "H79") x.H79_widening_assign(y, tp);
+    else if (W == "CC76") x.CC76_extrapolation_assign(y, tp); else throw std::runtime_error("case: unknown widening " + W); }
+  static void lim(BDS& x, const std::string& W, const BDS& y, const Constraint_System& cs, unsigned* tp) {
+    if (W == "BHMZ05") x.limited_BHMZ05_extrapolation_assign(y, cs, tp); else if (W == "H79") x.limited_H79_extrapolation_assign(y, cs, tp);
+    else if (W == "CC76") x.limited_CC76_extrapolation_assign(y, cs, tp); else throw std::runtime_error("case: unknown widening " + W); }
+};
+template <> struct Ops<OCT> {
+  static const char* kind() { return "OCT"; }
+  static std::string flags(const OCT& x) { std::ostringstream os; x.status.ascii_dump(os); return os.str(); }
+  static void widen(OCT& x, const std::string& W, const OCT& y, unsigned* tp) {
+    if (W == "BHMZ05") x.BHMZ05_widening_assign(y, tp); else if (W == "CC76") x.CC76_extrapolation_assign(y, tp);
+    else throw std::runtime_error("case: unknown widening " + W); }
+  static void lim(OCT& x, const std::string& W, const OCT& y, const Constraint_System& cs, unsigned* tp) {
+    if (W == "BHMZ05") x.limited_BHMZ05_extrapolation_assign(y, cs, tp); else if (W == "CC76") x.limited_CC76_extrapolation_assign(y, cs, tp);
+    else throw std::runtime_error("case: unknown widening " + W); }
+};
+template <> struct Ops<Rational_Box> {
+  static const char* kind() { return "BOX"; }
+  static std::string flags(const Rational_Box& x) { std::ostringstream os; x.status.ascii_dump(os); return os.str(); }
+  static void widen(Rational_Box& x, const std::string& W, const Rational_Box& y, unsigned* tp) {
+    if (W == "CC76") x.CC76_widening_assign(y, tp); else throw std::runtime_error("case: unknown widening " + W); }
+  static void lim(Rational_Box& x, const std::string& W, const Rational_Box& y, const Constraint_System& cs, unsigned* tp) {
+    if (W == "CC76") x.limited_CC76_extrapolation_assign(y, cs, tp); else throw std::runtime_error("case: unknown widening " + W); }
+};
+
+template <typename T> struct ShapeT : Shape {
+  T v;
+  ShapeT(const T& t) : v(t) {}
+  Shape* clone() const { return new ShapeT<T>(v); }
+  const char* kind() const { return Ops<T>::kind(); }
+  unsigned dim() const { return v.space_dimension(); }
+  Constraint_System cons() const { T c(v); return c.constraints(); }
+  bool ok() const { return v.OK(); }
+  std::string flags() const { std::string s = Ops<T>::flags(v); for (size_t i = 0; i < s.size(); ++i) if (s[i] == ' ' || s[i] == '\n') s[i] = '_'; return s.empty() ? "-" : s; }
+  void join(const Shape& y) { v.upper_bound_assign(static_cast<const ShapeT<T>&>(y).v); }
+  void widen(const std::string& W, const Shape& y, unsigned* tp) { Ops<T>::widen(v, W, static_cast<const ShapeT<T>&>(y).v, tp); }
+  void lim(const std::string& W, const Shape& y, const Constraint_System& cs, unsigned* tp) { Ops<T>::lim(v, W, static_cast<const ShapeT<T>&>(y).v, cs, tp); }
+  Shape* route(const std::string& r, unsigned long seed) const {
+    Rng rng(seed);
+    unsigned d = v.space_dimension();
+    T s(v);
+    if (r == "copy") return new ShapeT<T>(v);
+    if (r == "closed") { T t(v); (void) t.minimized_constraints(); return new ShapeT<T>(t); }   // closure / reduction computed in place
+    if (r == "empt") { T t(v); (void) t.is_empty(); return new ShapeT<T>(t); }
+    std::vector<Constraint> cv;
+    { Constraint_System cs = (r == "cons") ? s.constraints() : s.minimized_constraints();
+      for (Constraint_System::const_iterator i = cs.begin(); i != cs.end(); ++i) cv.push_back(*i); }
+    if (r == "cons" || r == "mcons") {
+      T t(d, UNIVERSE); for (size_t i = 0; i < cv.size(); ++i) t.refine_with_constraint(cv[i]); return new ShapeT<T>(t); }
+    if (r == "poly") {
+      Constraint_System cs; if (d > 0) cs.set_space_dimension(d); for (size_t i = 0; i < cv.size(); ++i) cs.insert(cv[i]);
+      if (cs.has_strict_inequalities()) { NNC_Polyhedron ph(cs); T t(ph, ANY_COMPLEXITY); return new ShapeT<T>(t); }
+      C_Polyhedron ph(cs); T t(ph, ANY_COMPLEXITY); return new ShapeT<T>(t); }
+    if (r == "addc" || r == "consred") {
+      std::vector<Constraint> all(cv);
+      if (r == "consred") {
+        size_t n0 = cv.size();
+        for (unsigned k = 0; k < 4 && n0 > 0; ++k) {
+          const Constraint& a = cv[rng.below(n0)]; const Constraint& b = cv[rng.below(n0)];
+          if (a.is_inequality()) { Linear_Expression l(a.expression()); l += (1 + rng.below(4)); all.push_back(l >= 0); }
+          if (a.is_inequality() && b.is_inequality()) { Linear_Expression ea(a.expression()), eb(b.expression()); all.push_back(ea + eb >= 0); }
+        }
+      }
+      shuffle(all, rng);
+      T t(d, UNIVERSE);
+      // redundant sums may fall outside the class of the shape: refine ignores those (they are implied anyway)
+      for (size_t i = 0; i < all.size(); ++i) t.refine_with_constraint(all[i]);
+      return new ShapeT<T>(t);
+    }
+    throw std::runtime_error("case: unknown shape route " + r);
+  }
+};
+
+typedef std::map<int, Shape*> SPool;
+static SPool spool;
+static Shape* sget(int id) { SPool::iterator i = spool.find(id); if (i == spool.end()) throw std::runtime_error("case: unknown shape object"); return i->second; }
+static void sput(int id, Shape* p) { SPool::iterator i = spool.find(id); if (i != spool.end()) { delete i->second; i->second = p; } else spool[id] = p; }
+static bool is_shape_kind(const std::string& k) { return k == "BDS" || k == "OCT" || k == "BOX"; }
+static void print_sstate(const char* tag, int id, const Shape& o) {
+  std::cout << tag << " " << id << " " << o.kind() << " " << o.dim() << " " << o.flags() << " ";
+  print_cons(std::cout, o.cons(), o.dim());
+  std::cout << " gens 0 ok " << (o.ok() ? 1 : 0) << "\n";
+}
+static Shape* new_shape(const std::string& kind, unsigned dim, const std::string& how, Toks& tk) {
+  Constraint_System cs; bool empty = (how == "empty");
+  if (how == "cons") cs = read_cons(tk, dim);
+  else if (how != "universe" && how != "empty") throw std::runtime_error("case: bad new");
+  if (kind == "BDS") { BDS t(dim, empty ? EMPTY : UNIVERSE); if (how == "cons") t.add_constraints(cs); return new ShapeT<BDS>(t); }
+  if (kind == "OCT") { OCT t(dim, empty ? EMPTY : UNIVERSE); if (how == "cons") t.add_constraints(cs); return new ShapeT<OCT>(t); }
+  Rational_Box t(dim, empty ? EMPTY : UNIVERSE); if (how == "cons") t.add_constraints(cs); return new ShapeT<Rational_Box>(t);
+}
+
 static void widen_call(const std::string& W, Polyhedron& x, const Polyhedron& y, unsigned* tp) {
   if (W == "H79") x.H79_widening_assign(y, tp);
   else if (W == "BHRZ03") x.BHRZ03_widening_assign(y, tp);
@@ -268,23 +391,39 @@ int main(int argc, char** argv) {
     std::string cmd = tk.next();
     if (cmd[0] == '#') continue;
     try {
-      if (cmd == "case") { for (Pool::iterator i = pool.begin(); i != pool.end(); ++i) delete i->second; pool.clear(); std::cout << "case " << tk.next() << "\n"; }
+      if (cmd == "case") { for (Pool::iterator i = pool.begin(); i != pool.end(); ++i) delete i->second; pool.clear(); for (SPool::iterator i = spool.begin(); i != spool.end(); ++i) delete i->second; spool.clear(); std::cout << "case " << tk.next() << "\n"; }
       else if (cmd == "end") std::cout << "end\n";
       else {
         try {
-          if (cmd == "new") { int id = std::atoi(tk.t[1].c_str()); do_new(tk); std::cout << "res new ok\n"; print_state("st", id, *get(id)); }
+          if (cmd == "new" && is_shape_kind(tk.t.at(2))) {
+            int id = tk.nextl(); std::string kind = tk.next(); unsigned dim = tk.nextl(); std::string how = tk.next();
+            sput(id, new_shape(kind, dim, how, tk)); std::cout << "res new ok\n"; print_sstate("st", id, *sget(id)); }
+          else if (cmd == "new") { int id = std::atoi(tk.t[1].c_str()); do_new(tk); std::cout << "res new ok\n"; print_state("st", id, *get(id)); }
           else if (cmd == "mk") {
             int id = tk.nextl(); std::string route = tk.next(); int src = tk.nextl(); unsigned long seed = tk.nextl();
+            if (spool.count(src)) { sput(id, sget(src)->route(route, seed)); std::cout << "res mk ok\n"; print_sstate("st", id, *sget(id)); }
+            else {
             put(id, do_route(route, *get(src), seed));
-            std::cout << "res mk ok\n"; print_state("st", id, *get(id));
+            std::cout << "res mk ok\n"; print_state("st", id, *get(id)); }
           }
           else if (cmd == "hull") {
             int id = tk.nextl(); int a = tk.nextl(); int b = tk.nextl();
+            if (spool.count(a)) { Shape* p = sget(a)->clone(); try { p->join(*sget(b)); } catch (...) { delete p; throw; } sput(id, p); std::cout << "res hull ok\n"; print_sstate("st", id, *sget(id)); }
+            else {
             Polyhedron* p = clone(*get(a)); p->upper_bound_assign(*get(b)); put(id, p);
-            std::cout << "res hull ok\n"; print_state("st", id, *get(id));
+            std::cout << "res hull ok\n"; print_state("st", id, *get(id)); }
           }
           else if (cmd == "widen") {
             std::string W = tk.next(); int id = tk.nextl(); int ix = tk.nextl(); int iy = tk.nextl(); long t = tk.nextl();
+            if (spool.count(ix)) {
+              Shape* x = sget(ix)->clone(); Shape* y = sget(iy)->clone();
+              unsigned tok = t < 0 ? 0 : (unsigned) t;
+              try { x->widen(W, *y, t < 0 ? 0 : &tok); } catch (...) { delete x; delete y; throw; }
+              sput(id, x);
+              std::cout << "res widen ok\n" << "tok " << (t < 0 ? -1L : (long) tok) << "\n";
+              print_sstate("st", id, *sget(id)); print_sstate("sty", iy, *y); delete y;
+              std::cout.flush(); continue;
+            }
             Polyhedron* x = clone(*get(ix)); Polyhedron* y = clone(*get(iy));
             unsigned tok = t < 0 ? 0 : (unsigned) t;
             try { widen_call(W, *x, *y, t < 0 ? 0 : &tok); } catch (...) { delete x; delete y; throw; }
@@ -296,6 +435,17 @@ int main(int argc, char** argv) {
           }
           else if (cmd == "lim") {
             std::string W = tk.next(); std::string kind = tk.next(); int id = tk.nextl(); int ix = tk.nextl(); int iy = tk.nextl(); long t = tk.nextl();
+            if (spool.count(ix)) {
+              Shape* x = sget(ix)->clone(); Shape* y = sget(iy)->clone();
+              if (tk.next() != "cons") throw std::runtime_error("case: expected cons");
+              Constraint_System cs = read_cons(tk, x->dim());
+              unsigned tok = t < 0 ? 0 : (unsigned) t;
+              try { x->lim(W, *y, cs, t < 0 ? 0 : &tok); } catch (...) { delete x; delete y; throw; }
+              sput(id, x);
+              std::cout << "res lim ok\n" << "tok " << (t < 0 ? -1L : (long) tok) << "\n";
+              print_sstate("st", id, *sget(id)); print_sstate("sty", iy, *y); delete y;
+              std::cout.flush(); continue;
+            }
             Polyhedron* x = clone(*get(ix)); Polyhedron* y = clone(*get(iy));
             if (tk.next() != "cons") throw std::runtime_error("case: expected cons");
             Constraint_System cs = read_cons(tk, x->space_dimension());
